@@ -14,8 +14,8 @@ from fonts import report_payload
 PROP = 'C10'
 VARIANTS = ['asan-direct']
 CONFIGS = [(src, opts) for src in (0, 1) for opts in range(8)] + [(8, 0), (9, 4), (8, 6)]       # src + 8: deprecated *_with_seg_cache constructors
-RULE = ('Hypothesis: (font, text <= 24, dir 0..7, enc, feature settings) with fonts from the shipped set and C06-regime synthesised fonts; each case shaped under 16 configurations '
-        '(options 0..7 x {callbacks, file}); face report compared once per font and configuration. Oracle: exact equality with the default/callback configuration. '
+RULE = ('Hypothesis: (font, text <= 24, dir 0..7, enc, feature settings) with fonts from the shipped set, C06-regime synthesised fonts and fonts with a generated cmap (format 4 + format 12, boundary code points in the text); each case shaped under 19 configurations '
+        '(options 0..7 x {callbacks, file} + three deprecated *_with_seg_cache constructors); face report compared once per font and configuration. Oracle: exact equality with the default/callback configuration. '
         'Non-trivial: the segment had >= 1 rule fired. Distinct by case JSON.')
 ASSUME = ['fonts are well-formed (shipped or compiled by fontsynth); exact equality is the right comparator (design probe: 6 option values agree exactly on 3000 segments)']
 CHARS = [0x20, 0x41, 0x61, 0x62, 0x7A, 0xE9, 0x301, 0x627, 0x644, 0x915, 0x1000, 0x1031, 0x2019, 0xFFFD, 0xFFFF, 0x10000, 0x1F600] + list(range(0x60, 0x70))
